@@ -17,12 +17,31 @@ Proof.
   induction par as [|lv t IH]; intro s; simpl; [reflexivity|]. rewrite H. f_equal. apply IH.
 Qed.
 
-Lemma count_levels_ok k wl nl : (forall l, wl l = WOk) -> k WOk = false -> count_levels k wl nl = 0.
+Lemma level_reports_ok m lag it pos wl nl : (forall l, wl l = WOk) -> level_reports m lag it pos wl nl = [].
 Proof.
-  intros H Hk. unfold count_levels.
-  assert (G : forall s, length (filter (fun l => k (wl l)) (seq s nl)) = 0).
-  { induction nl as [|n IH]; intro s; simpl; [reflexivity|]. rewrite H, Hk. apply IH. }
+  intro H. unfold level_reports.
+  assert (G : forall s, flat_map (fun l => match wl l with
+                                          | WOk => []
+                                          | WEio => [mkWR (report_due m (lag pos l) it) 1 0]
+                                          | WErr => [mkWR (report_due m (lag pos l) it) 0 1]
+                                          end) (seq s nl) = []).
+  { induction nl as [|n IH]; intro s; simpl; [reflexivity|]. rewrite H. apply IH. }
   apply G.
+Qed.
+
+Lemma level_reports_nonzero m lag it pos wl nl : Forall (fun w => rep_nonzero w = true) (level_reports m lag it pos wl nl).
+Proof.
+  unfold level_reports. apply Forall_forall. intros w Hin. apply in_flat_map in Hin. destruct Hin as [l [_ Hin]].
+  destruct (wl l); [destruct Hin | destruct Hin as [<-|[]]; reflexivity | destruct Hin as [<-|[]]; reflexivity].
+Qed.
+
+Lemma level_reports_mono_due lag it pos wl nl :
+  filter (fun w => negb (is_due it w)) (level_reports Mono lag it pos wl nl) = [].
+Proof.
+  unfold level_reports. generalize (seq 0 nl) as ls. induction ls as [|l t IH]; [reflexivity|].
+  cbn [flat_map]. rewrite filter_app, IH, app_nil_r.
+  destruct (wl l); cbn [filter]; [reflexivity | |];
+    unfold is_due, report_due; cbn [wr_due]; rewrite Nat.leb_refl; reflexivity.
 Qed.
 
 Section W.
@@ -42,9 +61,9 @@ Section W.
       (cbv zeta;
        destruct (so_bail (sync_stripe hashf bs nlev o now ni c (map (fun lv => nth pos lv PNone) par) fs (faults pos) pos)); [repeat split|];
        destruct (so_write (sync_stripe hashf bs nlev o now ni c (map (fun lv => nth pos lv PNone) par) fs (faults pos) pos)) as [v|];
-       [ rewrite !count_levels_ok by (auto); cbn [Nat.add Nat.eqb negb app filter sum_eio sum_err fold_right Nat.ltb Nat.leb andb];
-         rewrite write_levels_ok by auto; apply IH
-       | cbn [Nat.add Nat.eqb negb app filter sum_eio sum_err fold_right Nat.ltb Nat.leb andb]; apply IH ]).
+       [ rewrite level_reports_ok by (auto); cbn [Nat.add Nat.eqb negb app length filter sum_eio sum_err fold_right Nat.ltb Nat.leb andb];
+         rewrite write_levels_ok by auto; rewrite Nat.add_0_r; apply IH
+       | cbn [Nat.add Nat.eqb negb app length filter sum_eio sum_err fold_right Nat.ltb Nat.leb andb]; rewrite Nat.add_0_r; apply IH ]).
   Qed.
 
   (* ---------------------------------------------------------------------------------------------------------------- *)
@@ -239,17 +258,15 @@ Section W.
     destruct stop as [[|k]|]; [apply Base; exact HK | |];
       (destruct HK as [HF HL];
        destruct (so_bail r); [simpl; split; [exact HF | intro E; apply HL; lia]|];
-       set (neio := match so_write r with Some _ => count_levels w_is_eio (wf pos) (length par) | None => 0 end);
-       set (nerr := match so_write r with Some _ => count_levels w_is_err (wf pos) (length par) | None => 0 end);
-       set (qa := if negb (neio + nerr =? 0) then q ++ [mkWR (report_due m lag it) neio nerr] else q);
-       set (nf := if negb (neio + nerr =? 0) then S nfail else nfail);
+       set (reps := match so_write r with Some _ => level_reports m lag it pos (wf pos) (length par) | None => [] end);
+       set (qa := q ++ reps);
        set (q2 := filter (fun w => negb (is_due it w)) qa);
        set (seen := filter (is_due it) qa);
-       assert (HFa : Forall (fun w => rep_nonzero w = true) qa)
-         by (unfold qa; destruct (negb (neio + nerr =? 0)) eqn:En; [|exact HF]; apply Forall_app; split; [exact HF|]; constructor; [|constructor];
-             unfold rep_nonzero; simpl; exact En);
-       assert (HLa : ne + so_nerr r + (ns + so_nsilent r) + (ni + so_nio r) = 0 -> length qa = nf)
-         by (intro E; unfold qa, nf; destruct (negb (neio + nerr =? 0)); [rewrite app_length; simpl; rewrite HL by lia; lia | apply HL; lia]);
+       assert (HFr : Forall (fun w => rep_nonzero w = true) reps)
+         by (unfold reps; destruct (so_write r); [apply level_reports_nonzero | constructor]);
+       assert (HFa : Forall (fun w => rep_nonzero w = true) qa) by (apply Forall_app; split; assumption);
+       assert (HLa : ne + so_nerr r + (ns + so_nsilent r) + (ni + so_nio r) = 0 -> length qa = nfail + length reps)
+         by (intro E; unfold qa; rewrite app_length, HL by lia; reflexivity);
        assert (HF2 : Forall (fun w => rep_nonzero w = true) q2) by (apply Forall_filter; exact HFa);
        assert (HFs : Forall (fun w => rep_nonzero w = true) seen) by (apply Forall_filter; exact HFa);
        destruct (0 <? sum_eio seen) eqn:Ece; cbn [andb];
@@ -268,19 +285,15 @@ Section W.
   Qed.
 
   (* single-thread mode: every report is seen at its own iteration, nothing is ever left in the queue *)
-  Lemma filter_notdue_mono it neio nerr :
-    filter (fun w => negb (is_due it w)) ([] ++ [mkWR (report_due Mono (fun _ => 0) it) neio nerr]) = [].
-  Proof. simpl. unfold is_due. simpl. rewrite Nat.leb_refl. reflexivity. Qed.
-
   Theorem mono_nothing_lost o now fs faults wf lag : forall stripes stop it nfail c par ne ns ni,
     w_lost (sync_loop_w hashf bs nlev o now fs faults wf Mono lag stripes stop it [] nfail c par ne ns ni) = [].
   Proof.
     induction stripes as [|pos rest IH]; intros stop it nfail c par ne ns ni; cbn [sync_loop_w]; cbv zeta; [reflexivity|].
     destruct (negb (stripe_enabled o _)); [apply IH|].
     set (r := sync_stripe hashf bs nlev o now ni c (map (fun lv => nth pos lv PNone) par) fs (faults pos) pos).
-    assert (Q : forall neio nerr, filter (fun w => negb (is_due it w))
-                  (if negb (neio + nerr =? 0) then [] ++ [mkWR (report_due Mono lag it) neio nerr] else []) = []).
-    { intros neio nerr. destruct (negb (neio + nerr =? 0)); [|reflexivity]. simpl. unfold is_due. simpl. rewrite Nat.leb_refl. reflexivity. }
+    assert (Q : filter (fun w => negb (is_due it w))
+                  ([] ++ match so_write r with Some _ => level_reports Mono lag it pos (wf pos) (length par) | None => [] end) = []).
+    { simpl. destruct (so_write r); [apply level_reports_mono_due | reflexivity]. }
     destruct stop as [[|k]|]; [reflexivity | |];
       (destruct (so_bail r); [reflexivity|];
        rewrite Q;
